@@ -34,13 +34,16 @@ CFG = dict(
          "deadline expiry, peer body, peer trailer, unary call + reply, write failure} after the open, API-conformant; Rig B (real server, scripted "
          "protocol-conformant client): ALL words of length <= 5 (thorough 6) over {client body, close, reset; handler recv, send, set+send header, "
          "return ok, return error, SendMsg of a message the codec rejects (quick: words <= 4 with it)} after the open, 3 stream kinds, + unary / "
-         "undecodable metadata / bodies for unknown ids / the handler's own deadline; streams to UNREGISTERED methods / unknown services (opener + 0..2 messages + half-close / reset / late body, scripted client and the real client, "
+         "undecodable metadata / bodies for unknown ids / the handler's own deadline; header / trailer metadata in the classes a stricter library refuses (non-ASCII UTF-8, control characters, upper-case / empty / illegal keys, empty "
+         "value) in the words and a family of their own; unary calls whose method is still running at its GRPC-Timeout (ends on its context / ignores it) "
+         "with more traffic afterwards; streams to UNREGISTERED methods / unknown services (opener + 0..2 messages + half-close / reset / late body, scripted client and the real client, "
          "eagerly or after the answer) + probe; the RETURN WINDOW as a schedulable point (a server stats handler "
          "holds the OutTrailer event, a stream interceptor holds after the handler function: handler returned, trailer not yet handed to the writer) x "
          "{body, 2 bodies, half-close, reset, body+reset} of the client arriving there, scripted client and end to end (the real client sends into it); "
          "Rig C (real client - held wires - real server): the cancellation-at-every-prefix scenarios of C07 and the abandonment scenarios of C11 "
          "(quick: a third / a quarter of them; thorough: all); every per-id per-direction projection of both wire histories is judged by proto_c2s / "
-         "proto_s2c, plus trailer-presence, ids-received, route swap and reset-answers-a-body over the step-indexed histories",
+         "proto_s2c, plus trailer-presence, ids-received, route swap, reset-answers-a-body and presence of exactly one response per unary request whose method has "
+         "returned over the step-indexed histories",
     assumptions=["payloads, metadata, methods and names are opaque tokens for the client and server (checked by tokenised round trips in the rig)",
                  "the transport checks the context of a Write (Endpoint.CheckCtx): a Write with a cancelled context fails (hypothesis transport_checks_ctx of DESIGN.md)",
                  "one observable is canonicalised in the rig: after a SendMsg / CloseSend of a call failed with a transport write error or in the codec (both exits run teardown(false)), \"respChan closed\" and Canceled are one class "
